@@ -189,7 +189,7 @@ var graphStub = []string{"node bodies, branch conditions, state handlers (harnes
 
 func init() {
 	core.Register(&core.Profile{
-		ID: "C01", Engine: "graphsim", Quick: 2500, Thorough: 60000, ThoroughSeeds: 3,
+		RaceQuick: 200, RaceThorough: 3000, ID: "C01", Engine: "graphsim", Quick: 2500, Thorough: 60000, ThoroughSeeds: 3,
 		Run: func(t *kernel.Tape, o core.Opts) *core.Outcome {
 			if t.Plan(4) == 0 {
 				return runChain(t, o, "C01") // chains: sequential composition, parallel stages merged by key
@@ -198,8 +198,8 @@ func init() {
 				gen:       GenOpts{Modes: []int{ModePregel}, MaxNodes: 7, Depth: 2, Cycles: true, Streams: true, Yields: 1, State: 0},
 				paradigms: []int{PInvoke, PInvoke, PStream, PCollect, PTransform}})
 		},
-		Rule:   "1 in 4 runs draws a chain (1-5 stages: lambda, parallel of 2-3 lambdas with output keys, single/multi/stream branch over 2-3 alternatives, pass-through, nested graph) compared with sequential composition; the others draw a Pregel plan (1-7 nodes, fan-out/fan-in, single and multi-way branches with scripted outcome sequences, back edges, pass-through nodes, nested Pregel graphs to depth 2, step limit 1-12 or default), one call (any paradigm) and one schedule; compared with the reference superstep interpreter (result or error class, multiset of (node path, input) executions, per-node execution count <= limit, nested plan also run alone); non-trivial = >=2 live tasks and >=1 step with >=2 candidates; distinct = distinct (plan hash, schedule signature)",
-		Real:   graphReal, Stub: graphStub,
+		Rule: "1 in 4 runs draws a chain (1-5 stages: lambda, parallel of 2-3 lambdas with output keys, single/multi/stream branch over 2-3 alternatives, pass-through, nested graph) compared with sequential composition; the others draw a Pregel plan (1-7 nodes, fan-out/fan-in, single and multi-way branches with scripted outcome sequences, back edges, pass-through nodes, nested Pregel graphs to depth 2, step limit 1-12 or default), one call (any paradigm) and one schedule; compared with the reference superstep interpreter (result or error class, multiset of (node path, input) executions, per-node execution count <= limit, nested plan also run alone); non-trivial = >=2 live tasks and >=1 step with >=2 candidates; distinct = distinct (plan hash, schedule signature)",
+		Real: graphReal, Stub: graphStub,
 		Faults: []string{"node completion order", "map-order perturbation", "step limit hit"},
 	})
 	core.Register(&core.Profile{
@@ -209,8 +209,8 @@ func init() {
 				gen:       GenOpts{Modes: []int{ModeDAG, ModeWorkflow}, MaxNodes: 7, Depth: 2, Streams: true, Yields: 1, State: 0},
 				paradigms: []int{PInvoke, PInvoke, PStream, PCollect, PTransform}})
 		},
-		Rule:   "each run draws an AllPredecessor graph or a Workflow (control+data, data-only and control-only dependencies, field mappings, static values, single and multi-way branches incl. empty selections, converging branches, nested graphs), one call and one schedule; compared with the reference trigger/skip interpreter (result or error class, multiset of executions, at most once)",
-		Real:   graphReal, Stub: graphStub,
+		Rule: "each run draws an AllPredecessor graph or a Workflow (control+data, data-only and control-only dependencies, field mappings, static values, single and multi-way branches incl. empty selections, converging branches, nested graphs), one call and one schedule; compared with the reference trigger/skip interpreter (result or error class, multiset of executions, at most once)",
+		Real: graphReal, Stub: graphStub,
 		Faults: []string{"node completion order (eager: who finishes first)", "map-order perturbation", "skip cascades"},
 	})
 	core.Register(&core.Profile{
@@ -223,8 +223,8 @@ func init() {
 				gen:       GenOpts{Modes: []int{ModePregel, ModeDAG, ModeWorkflow, ModeWorkflow}, MaxNodes: 7, Depth: 1, Cycles: true, Streams: false, Yields: 3, State: 0, Parallelism: true},
 				paradigms: []int{PInvoke, PInvoke, PStream}})
 		},
-		Rule:   "plans with >=3 parallel START successors in all three modes (batch and eager execution), node bodies that yield 0-3 times, every interleaving point of executor goroutines and run loop (tm.exec.enter, tm.push.pre, tm.wait.pre, tm.wait.post); oracle: result and execution multiset equal the model on every schedule, push/hand-off/collect conservation per run loop, deadlock detector, no return before executions finished",
-		Real:   graphReal, Stub: graphStub,
+		Rule: "plans with >=3 parallel START successors in all three modes (batch and eager execution), node bodies that yield 0-3 times, every interleaving point of executor goroutines and run loop (tm.exec.enter, tm.push.pre, tm.wait.pre, tm.wait.post); oracle: result and execution multiset equal the model on every schedule, push/hand-off/collect conservation per run loop, deadlock detector, no return before executions finished",
+		Real: graphReal, Stub: graphStub,
 		Faults: []string{"node completion order", "stalled node (starve policy)", "map-order perturbation"},
 	})
 }
